@@ -61,9 +61,15 @@ def run(P, rep, tier):
     rep.attempt(r9_handle_provenance, P, rep, ctx)
     rep.attempt(r10_copy_into_patch_callers, P, rep, ctx)
     rep.attempt(r12_raw_containers_stay_inside, P, rep, ctx)
+    rep.attempt(r13_failed_create_keeps_deletion, P, rep, ctx)
     from .common import r_path_prefix_tests
 
     rep.attempt(r_path_prefix_tests, P, rep, ctx, "C01.R11", {"ih5.overlay", "ih5.record"})
+    # the overlay view is the view over ALL containers of the record: the file-name language that decides which patch
+    # containers belong to a record (any patch index, any number of digits) is C03's rule, run here under its own id
+    from . import c03 as _c03
+
+    rep.attempt(_c03.r3_name_language, P, rep, ctx)
     rep.floor("C01.R1", 7)
     rep.floor("C01.R2", 6)
     rep.floor("C01.R3", 4)
@@ -76,6 +82,36 @@ def run(P, rep, tier):
         from .pinned import refine
 
         refine(P, rep, ctx, "C01")
+
+
+def r13_failed_create_keeps_deletion(P, rep, ctx):
+    """An operation that fails leaves the tree as it was ("fails exactly as it would on the single tree"; deleted data never
+    reappears).  create_dataset removes the deletion marker of `path` from the newest container *before* the raw
+    `create_dataset`, which h5py can still refuse (a value without HDF5 conversion, shape / dtype / filter conflicts): unless
+    the raw create is covered by a handler that writes the marker back, the failed call makes the node that the marker hid
+    (a dataset, or a group with its whole subtree in older containers) visible again."""
+    fi = P.func(f"{O}.IH5Group.create_dataset")
+    f = F(ctx, fi)
+    g = f.g
+    is_mark = f.tests("_node_is_del_mark(___)")
+    unmark = [d for d in f.deletes("self._files[-1][__]") + f.deletes("self._files[self._last_idx][__]") if is_mark and f.hit_before(d, edges=is_mark)]
+    raw = [n.idx for n in g.nodes if n.kind == "stmt" and any(call_attr(c) == "create_dataset" and norm(c.func.value) in ("self._files[-1]", "self._files[self._last_idx]") for c in g.calls(n.idx) if isinstance(c.func, ast.Attribute))]
+    if not unmark or not raw:
+        raise AnalysisError("C01.R13: marker removal / raw create_dataset of IH5Group.create_dataset not found")
+    for r in raw:
+        if not any(r in g.reach([u]) for u in unmark):
+            continue
+        st = g.nodes[r].stmt
+        covered = False
+        for t in walk_local(fi.node):
+            if isinstance(t, ast.Try) and any(x is st for b in t.body for x in ast.walk(b)):
+                for h in t.handlers:
+                    catches_all = h.type is None or norm(h.type) in ("Exception", "BaseException")
+                    restores = any(isinstance(x, ast.Assign) and norm(x.value) in ("DEL_VALUE",) and any(isinstance(tg, ast.Subscript) and norm(tg.value) in ("self._files[-1]", "self._files[self._last_idx]") for tg in x.targets) for b in h.body for x in ast.walk(b))
+                    reraises = any(isinstance(x, ast.Raise) for b in h.body for x in ast.walk(b))
+                    covered = covered or (catches_all and restores and reraises)
+        rep.check(covered, "C01.R13", fi.qual, "a refused raw create after the deletion marker was removed puts the marker back", fi.loc(st), construct="self._files[-1].create_dataset after marker removal",
+                  message="IH5Group.create_dataset removes the deletion marker of the path and then calls the raw create_dataset, which h5py may refuse, without restoring the marker: history [x = 1; commit; create_patch; del x; create_dataset('x', data=object()) -> TypeError] leaves 'x' (or a deleted group with its whole subtree) visible again")
 
 
 def r12_raw_containers_stay_inside(P, rep, ctx, rule="C01.R12"):
@@ -470,6 +506,15 @@ def r6_move_copy(P, rep, ctx):
     dl = f.deletes(f"self[{fi.params[1]}]")
     ok = bool(cp) and bool(dl) and g.every_path_passes(cp, g.exit) and g.every_path_passes(dl, g.exit) and all(g.every_path_passes(cp, d) for d in dl)
     rep.check(ok, "C01.R6", fi.qual, "move == overlay copy followed by overlay delete of the source, on every path", fi.loc(), construct="move = copy + delete", message="IH5Group.move is not `self.copy(source, dest); del self[source]` on every path: the source may survive or no deletion marker is left")
+    # a refused / failed move leaves the tree as it was (h5py contract): move removes nothing but the source, and that only
+    # after the copy returned normally -- no other delete (e.g. a clean-up of the destination in an exception handler, which
+    # also removes a destination that existed before and was the reason for the refusal), no __delitem__ / pop call
+    other_del = [n.idx for n in g.nodes if n.kind == "stmt" and isinstance(n.stmt, ast.Delete) and n.idx not in dl]
+    other_del += [n.idx for n in g.nodes if any(call_attr(c) in ("__delitem__", "pop", "clear", "_create_virtual") for c in g.calls(n.idx))]
+    for d in other_del:
+        rep.check(False, "C01.R6", fi.qual, "move deletes nothing but the source, after the copy succeeded", fi.loc(g.nodes[d].stmt), construct=norm(g.nodes[d].stmt)[:80],
+                  message=f"IH5Group.move also removes `{norm(g.nodes[d].stmt)[:80]}`: a move that is refused (destination exists, source missing) no longer leaves the tree unchanged — a destination that existed before is deleted")
+    rep.check(True, "C01.R6", fi.qual, "move deletes nothing but the source, after the copy succeeded", fi.loc(), construct="deletes in move")
     # copy: destination resolution
     cpf = P.func(f"{O}.IH5Group.copy")
     c = F(ctx, cpf)
